@@ -665,13 +665,16 @@ func (p *pkgInfo) elemOf(e ast.Expr, rname string) *elem {
 
 // ---- Initialize -----------------------------------------------------------------------------
 
-func translate(repo string, sp serverSpec) (root string, regs []reg, notes []string, err error) {
+// proxies: "" when Initialize calls <root>.SetTrustedProxies(<recv>.TrustedProxies.ToTrustedProxies()) exactly once and
+// unconditionally (then gin believes X-Forwarded-For / X-Real-Ip only from the configured proxies; without the call gin
+// trusts every peer); otherwise the reason why not.
+func translate(repo string, sp serverSpec) (root string, regs []reg, notes []string, proxies string, err error) {
 	fset := token.NewFileSet()
 	pkgs, err := parser.ParseDir(fset, filepath.Join(repo, sp.Dir), func(fi os.FileInfo) bool {
 		return !strings.HasSuffix(fi.Name(), "_test.go")
 	}, 0)
 	if err != nil {
-		return "", nil, nil, err
+		return "", nil, nil, "", err
 	}
 	p := &pkgInfo{fset: fset, methods: map[string]*ast.FuncDecl{}, recv: sp.Recv, perPath: sp.WithPath}
 	var initFn *ast.FuncDecl
@@ -694,12 +697,14 @@ func translate(repo string, sp serverSpec) (root string, regs []reg, notes []str
 		}
 	}
 	if initFn == nil {
-		return "", nil, nil, fmt.Errorf("%s: method (%s).Initialize not found in %s", sp.Name, sp.Recv, sp.File)
+		return "", nil, nil, "", fmt.Errorf("%s: method (%s).Initialize not found in %s", sp.Name, sp.Recv, sp.File)
 	}
 	_, rname := recvType(initFn)
 	routers := map[string]bool{}
 	accounted := map[token.Pos]bool{}
 	line := func(n ast.Node) int { return fset.Position(n.Pos()).Line }
+	proxyCalls := 0
+	var proxyBad []string
 
 	var walk func(stmts []ast.Stmt, cond bool)
 	walk = func(stmts []ast.Stmt, cond bool) {
@@ -749,6 +754,22 @@ func translate(repo string, sp serverSpec) (root string, regs []reg, notes []str
 						switch {
 						case sel.Sel.Name == "SetTrustedProxies":
 							accounted[x.Pos()] = true
+							proxyCalls++
+							argOK := false
+							if len(c.Args) == 1 {
+								if ac, ok4 := c.Args[0].(*ast.CallExpr); ok4 && len(ac.Args) == 0 &&
+									isSel(ac.Fun, rname, "TrustedProxies", "ToTrustedProxies") {
+									argOK = true
+								}
+							}
+							switch {
+							case cond:
+								proxyBad = append(proxyBad, fmt.Sprintf("%s:%d SetTrustedProxies is only called conditionally", sp.File, line(s)))
+							case x.Name != root:
+								proxyBad = append(proxyBad, fmt.Sprintf("%s:%d SetTrustedProxies is not called on the engine", sp.File, line(s)))
+							case !argOK:
+								proxyBad = append(proxyBad, fmt.Sprintf("%s:%d SetTrustedProxies argument is not %s.TrustedProxies.ToTrustedProxies()", sp.File, line(s), rname))
+							}
 						case sel.Sel.Name == "Use":
 							okAll := len(c.Args) > 0
 							var es []*elem
@@ -806,7 +827,15 @@ func translate(repo string, sp serverSpec) (root string, regs []reg, notes []str
 		regs = append(regs, reg{Kind: "unknown", What: "gin.New() not found"})
 		root = "router"
 	}
-	return root, regs, p.notes, nil
+	switch {
+	case len(proxyBad) > 0:
+		proxies = strings.Join(proxyBad, "; ")
+	case proxyCalls == 0:
+		proxies = sp.File + ": Initialize never calls SetTrustedProxies (gin then trusts every peer)"
+	case proxyCalls > 1:
+		proxies = sp.File + ": SetTrustedProxies is called more than once"
+	}
+	return root, regs, p.notes, proxies, nil
 }
 
 // ---- printing ---------------------------------------------------------------------------------
@@ -857,19 +886,25 @@ func main() {
 		Uses    []string
 		Externs []string
 		Unknown []string
+		Proxies string // "" = SetTrustedProxies(<configured list>) is called unconditionally
 		Elems   map[string][]string
 	}
 	var notes []srvNote
 	var names []string
 	for _, sp := range servers {
-		root, regs, _, err := translate(repo, sp)
+		root, regs, _, proxies, err := translate(repo, sp)
 		if err != nil {
 			fmt.Fprintln(os.Stderr, err)
 			os.Exit(1)
 		}
-		sn := srvNote{Server: sp.Name, Elems: map[string][]string{}}
-		fmt.Fprintf(&sb, "Definition routes_%s : table := {|\n  t_server := %s; t_action := %s; t_withpath := %s; t_root := %s;\n  t_regs := [\n",
-			sp.Name, cqStr(sp.Name), cqStr(sp.Action), cqBool(sp.WithPath), cqStr(root))
+		sn := srvNote{Server: sp.Name, Elems: map[string][]string{}, Proxies: proxies}
+		pnote := ""
+		if proxies != "" {
+			pnote = "  (* " + strings.ReplaceAll(proxies, "*)", "* )") + " *)\n"
+		}
+		fmt.Fprintf(&sb, "Definition routes_%s : table := {|\n  t_server := %s; t_action := %s; t_withpath := %s; t_root := %s;\n"+
+			"  t_proxies_set := %s;\n%s  t_regs := [\n",
+			sp.Name, cqStr(sp.Name), cqStr(sp.Action), cqBool(sp.WithPath), cqStr(root), cqBool(proxies == ""), pnote)
 		for i, r := range regs {
 			sep := ";"
 			if i == len(regs)-1 {
